@@ -18,7 +18,8 @@ OPS = ['+', '-', '*', '/', '^', '&', '=', '<', '>', '<=', '>=', '<>']
 PUNCT = ['%', '(', ')', ',', ';', '{', '}', ':']
 WS = [' ', '  ', '\t', '\n', '\r', '\xa0', ' ', '\x0b']
 FUNCS = ['SUM(', 'IF(', 'PI()', '_xlfn.X(', 'INDEX(', 'sum(', '@']
-STRAYCH = ['!', '$', '.', 'E+', 'x', 'é', '"', "'", '#', '?', '~', '\\', '[', ']', '|', '`', '{=']
+STRAYCH = ['!', '$', '.', 'E+', 'x', 'é', '"', "'", '#', '?', '~', '\\', '[', ']', '|', '`', '{=',
+           '\u0663', '\u0e57', '\u0968', '\uff15', '\U00010d42']  # decimal digits of other scripts (Arabic-Indic 3, Thai 7, Devanagari 2, full-width 5, Garay 2)
 DICT = NUMBERS + STRINGS + BOOLS + ERRS + REFS + OPS + PUNCT + WS + FUNCS + STRAYCH
 # the classes the validity predicate is certain about: soups over these are decided, not "unknown"
 CLEAN = (['1', '2', '0.5', '007', '1E+2', '"a"', '""', 'TRUE', '#N/A', '#REF!', 'A1', 'B2', '$C$3', 'nm', 'Sheet1!A1']
@@ -294,6 +295,7 @@ def basic_invalid():
                 if b2 not in '+-' and not (b + b2 in ('<=', '>=', '<>')):
                     out.append('=%s%s%s%s' % (o, b, b2, o))
     out += ['=1,*1', '=A1,=A1', '=A1,:A1', '=A1,,A1', '=(A1,,A1)']
+    out += ['=\u0663', '=1E+\u0e57', '=SUM(1,\u0968)', '=\u0663+1', '=1.\u0663', '=\uff15', '=\U00010d42', '=1\u0663', '=-\u0e57%']
     out += ['=1 A1', '=A1 1', '="a" "a"', '=1"a"', '="a"1', '=(1)(1)', '=(1)1', '=1(1)', '={1}{1}', '=PI()1', '=1 PI()',
             '="a"PI()', '=1%1', '=A1%A1', '=(A1)(A1)', '=(A1)A1', '=(A1) 1', '=1 (A1)', '=1 2', '=TRUE FALSE', '=A1 "a"',
             '=SUM(1 2)', '=SUM(A1)A1', '=SUM(A1)(A1)', '={1}A1', '=A1{1}', '=nm"a"', '="a"nm', '=1 nm', '=nm 1',
